@@ -23,6 +23,8 @@
 (*         expect : [has, store]]   (G: the generating model's post-store of  *)
 (*         the acting thread; ModelAgree cross-checks generator, concretiser  *)
 (*         and this module - a failure is a machinery error, not a verdict)   *)
+(*         q, node : for k = "read" the query and the source of the node,     *)
+(*         res / ref = answer on the long-lived node / on a fresh tree,       *)
 (*         heap : Seq(<<cell, text>>) deep snapshot of the run's mutable      *)
 (*         option objects after the step, reps : results of the repetitions   *)
 (* In `m` a value is a cell id (Options.tla: value = cell, heap = contents);  *)
@@ -51,9 +53,10 @@ CONSTANTS DefaultF, ValidVals, TIds, NoNest, HeapF
 OptNames == DOMAIN DefaultF
 
 VARIABLES alive, store, blocks, heap, last,     \* the model (Options.tla)
+          ftab,     \* what read-only calls denote, learned from the trace: <<source, query, effective options>> -> answer
           tid, l, regc, bad, seen
 ovars == <<alive, store, blocks, heap, last>>
-vars  == <<ovars, tid, l, regc, bad, seen>>
+vars  == <<ovars, ftab, tid, l, regc, bad, seen>>
 
 O == INSTANCE Options WITH Threads <- TIds, Main <- 0, Opts <- OptNames, Vals <- ValidVals, Default <- DefaultF,
                            Cells <- DOMAIN HeapF, Mutable <- {}, Heap0 <- HeapF,
@@ -67,7 +70,7 @@ Safe(f) == IF DOMAIN f = OptNames THEN f ELSE [o \in OptNames |-> "!shape"]
 Guard(e) ==
   CASE e.k = "spawn" -> e.t \in TIds /\ e.t \notin alive
     [] e.k = "die"   -> e.t \in alive \ {0} /\ blocks[e.t] = <<>>
-    [] e.k \in {"call", "edit", "set", "enter"} -> e.t \in alive /\ \A x \in Range(e.m) : x.v \in DOMAIN heap
+    [] e.k \in {"call", "edit", "read", "set", "enter"} -> e.t \in alive /\ \A x \in Range(e.m) : x.v \in DOMAIN heap
     [] e.k = "exit"  -> e.t \in alive /\ blocks[e.t] # <<>>
     [] OTHER -> FALSE
 
@@ -75,7 +78,7 @@ Act(e) ==
   LET mf == MFun(e.m) IN
   CASE e.k = "spawn" -> O!Spawn(e.t)
     [] e.k = "die"   -> O!Die(e.t)
-    [] e.k \in {"call", "edit"} -> O!Call(e.t, mf)
+    [] e.k \in {"call", "edit", "read"} -> O!Call(e.t, mf)
     [] e.k = "set"   -> O!SetOptions(e.t, mf)
     [] e.k = "enter" -> O!EnterWith(e.t, mf)
     [] e.k = "exit"  -> O!ExitWith(e.t, e.how)
@@ -90,6 +93,10 @@ RegFold(ws, i, t, rc) ==
                ELSE cur = 1                                                                     \* last Release
       new == IF w.op = "set" THEN w.count ELSE 0
   IN RegFold(ws, i + 1, t, [c |-> (w.root :> new) @@ rc.c, bal |-> rc.bal /\ legal, own |-> rc.own /\ w.owner = t])
+
+(* key of a read: the node's source, the query, the deep effective value of every option (per-call value, else the *)
+(* calling thread's default) - evaluated in the state before the step                                               *)
+ReadKey(e) == <<e.node, e.q, O!Cont(heap, O!Eff(store[e.t], MFun(e.m)))>>
 
 RejKind(m) == IF \E x \in Range(m) : ~x.known THEN "unknown-name"
               ELSE IF \E x \in Range(m) : ~x.valid THEN "invalid-value" ELSE "valid"
@@ -107,6 +114,13 @@ Clauses(e, rf) ==
                 Cl("RejectAtomic.store", O!RejectStoreOn(last', ok, obsF))}
                \cup (IF ok /\ last'.ok THEN {Cl("CallIsolation.effective", O!CallEffOn(last', Safe(PFun(e.eff))))} ELSE {})
                \cup (IF ok /\ e.hasRef THEN {Cl("CallIsolation.result", e.res = e.ref)} ELSE {})
+          [] e.k = "read"  ->
+               \* OptionsRead!ReadAnswer: a read-only call on a long-lived node (warm memo) answers F(source, effective
+               \* options): (a) what the same call answers on a tree freshly built from the same source at the same
+               \* moment, (b) what any earlier read with the same source, query and effective options answered
+               {Cl("CallIsolation.store", O!CallStoreOn(last', obsF)),
+                Cl("ReadAnswer.fresh", e.res = e.ref),
+                Cl("ReadAnswer.function", LET k == ReadKey(e) IN k \in DOMAIN ftab => (ftab[k] = e.res /\ ftab[k] = e.ref))}
           [] e.k = "edit"  ->
                {Cl("CallIsolation.store", O!CallStoreOn(last', obsF)),
                 Cl("RejectAtomic.raised", O!Rejected(heap, MFun(e.m)) => ~ok)}
@@ -156,6 +170,7 @@ Init == /\ tid \in 1..Len(Traces)
         /\ last = O!Last0(heap)
         /\ l = 1
         /\ regc = <<>>
+        /\ ftab = <<>>
         /\ bad = {}
         /\ seen = {}
 
@@ -169,7 +184,8 @@ Next ==
                IN /\ bad' = bad \cup {<<l, r.c, ClassOf(e)>> : r \in {q \in cs : ~q.ok}}
                   /\ seen' = seen \cup {r.c : r \in cs}
                   /\ regc' = rf.c
-       ELSE /\ UNCHANGED <<ovars, regc>>
+                  /\ ftab' = IF e.k = "read" /\ ReadKey(e) \notin DOMAIN ftab THEN (ReadKey(e) :> e.ref) @@ ftab ELSE ftab
+       ELSE /\ UNCHANGED <<ovars, regc, ftab>>
             /\ bad' = bad \cup {<<l, "WellFormedTrace", ClassOf(e)>>}
             /\ seen' = seen \cup {"WellFormedTrace"}
   /\ l' = l + 1
